@@ -33,8 +33,9 @@ def link_block(rng, i):
         rng.choice(["", "Numb=%d\n" % rng.choice([-2, -1, 1, 2, 10])]))
 
 
-def gen_tree(rng, size, base):
+def gen_tree(rng, size, base, patt=None):
     """-> (tree spec, names in the directory, names hidden by metadata)"""
+    patt = patt or SHIPPED_PATTERN
     names = set()
     names.add(rng.choice(MATCHING))
     names.add(rng.choice(MISSES))
@@ -61,17 +62,19 @@ def gen_tree(rng, size, base):
     base_sel = "" if base == "/" else base
     # link and .cap files only refer to entries the listing would show (an override or hide block
     # for a file that is not listed ADDS an entry for it; that is C08's subject, not C07's)
-    listed = [n for n in names if not n.startswith(".") and not re.search(SHIPPED_PATTERN, base_sel + "/" + n)
+    listed = [n for n in names if not n.startswith(".") and not re.search(patt, base_sel + "/" + n)
               and "\n" not in n]
+    link_hidden = set()      # hidden by a link block: later blocks may name the same path again, it stays hidden
     for n in names:
         if n in (".Links", ".names", ".x"):
             blocks = []
             for i in range(rng.randrange(0, 3)):
                 blocks.append(link_block(rng, rng.randrange(100)))
             for tgt in rng.sample(listed, min(len(listed), rng.randrange(0, 3))):
-                if tgt in hidden:
-                    continue
+                if tgt in hidden and tgt not in link_hidden:
+                    continue         # dropped by its .cap file: a block for it would ADD an entry (C08's subject)
                 if rng.random() < 0.35:
+                    link_hidden.add(tgt)
                     blocks.append("Type=X\nPath=./%s\n" % tgt)
                     hidden.add(tgt)
                 else:
@@ -92,6 +95,97 @@ def gen_tree(rng, size, base):
     if not tree:
         tree.append({"path": tp(pre + "a.txt"), "data": "x\n"})
     return tree, names, hidden
+
+
+def hide_sequence_tree(rng, base):
+    """Several metadata blocks for the same ./path, at least one of them hiding it, spread over one or
+    more link files in every order: once hidden by a link block an entry stays hidden, whatever other
+    blocks (title, number, a second hide) come before or after, in the same or in another link file."""
+    pre = base.strip("/")
+    pre = pre + "/" if pre else ""
+    files = rng.sample(["alpha.txt", "beta", "gamma.txt", "delta.bin", "sub"], rng.randrange(2, 5))
+    links = rng.sample([".Links", ".names", ".x", ".zz"], rng.randrange(1, 4))
+    tree = []
+    for n in files:
+        if n == "sub":
+            tree.append({"path": pre + n, "kind": "dir"})
+        else:
+            tree.append({"path": pre + n, "data": "content of %s\n" % n})
+    per_file = {l: [] for l in links}
+    hidden = set()
+    for tgt in rng.sample(files, rng.randrange(1, min(3, len(files)) + 1)):
+        seq = [rng.choice(["hideX", "hide-", "title", "numb"]) for _ in range(rng.randrange(2, 4))]
+        if rng.random() < 0.8 and not any(k.startswith("hide") for k in seq):
+            seq[rng.randrange(len(seq))] = rng.choice(["hideX", "hide-"])
+        for k in seq:
+            if k == "hideX":
+                b = "Type=X\nPath=./%s\n" % tgt
+            elif k == "hide-":
+                b = "Path=./%s\nType=-\n" % tgt
+            elif k == "title":
+                b = "Path=./%s\nName=Title of %s\n" % (tgt, tgt)
+            else:
+                b = "Numb=%d\nPath=./%s\n" % (rng.choice([1, 2, -1]), tgt)
+            per_file[rng.choice(links)].append(b)
+            if k.startswith("hide"):
+                hidden.add(tgt)
+    for l in links:
+        tree.append({"path": pre + l, "data": "\n".join(per_file[l])})
+    return tree, files + links, hidden
+
+
+def matching_dirs(patt):
+    """Directory selectors whose OWN path is matched by an unanchored alternative of the pattern
+    (derived from the pattern, whatever it is): everything below them is ignored."""
+    out = []
+    for atoms, anchored in umnlib.gen_umn.compile_ignore(patt):
+        if anchored or not atoms:
+            continue
+        text = "".join("x" if a is None else chr(a) for a in atoms)
+        if "\n" in text or "\x00" in text:
+            continue
+        body = text.strip("/")
+        if not body or ".." in text or "//" in text or "./" in text:
+            continue
+        if text.startswith("/"):
+            d = "/" + body + ("" if text.endswith("/") else "zz")
+        else:
+            d = "/forms" + body + ("" if text.endswith("/") else "zz")
+        out.append(d)
+        out.append(d + "/below")
+    return out
+
+
+def plain_tree(rng, base):
+    pre = base.strip("/") + "/"
+    names = rng.sample(["a.txt", "b.txt", "c.html", "sub", "Zebra", "x~y", ".Links"], rng.randrange(2, 5))
+    tree = []
+    for n in names:
+        if n == "sub":
+            tree.append({"path": pre + n, "kind": "dir"})
+        elif n == ".Links":
+            tree.append({"path": pre + n, "data": link_block(rng, 7)})
+        else:
+            tree.append({"path": pre + n, "data": "content of %s\n" % n})
+    return tree, names, set()
+
+
+OTHER_PATTERNS = ["~$|/\\.|/gophermap$",              # the Bucktooth sample of conf/pygopherd.conf
+                  "/staging/|\\.bak$|/CVS$|~$"]       # a path-scoped alternative
+
+
+def full_tree(base):
+    """every matching and every near-miss name at once (both sides of every alternative)"""
+    pre = base.strip("/")
+    pre = pre + "/" if pre else ""
+    names = sorted(set(MATCHING + MISSES + ["a.txt", "sub", ".hidden"]))
+    tree = []
+    for n in names:
+        if n in DIRLIKE:
+            tree.append({"path": tp(pre + n), "kind": "dir"})
+        else:
+            tree.append({"path": tp(pre + n), "data": "content of %s\n" % tp(n)})
+    return tree, names, set()
 
 
 def d11_tree():
@@ -195,11 +289,18 @@ def run(tier):
     gcases = []
     for p, rs in zip(alt_patterns, search_res["results"]):
         patt = shipped if p is None else p
-        gcases.append("(%s, %s)" % (cq_alts(patt), coq_list("(%s, %s)" % (coq_str(s), coq_bool(r))
-                                                              for s, r in zip(search_strings, rs))))
+        pairs_ = [(s_, r_) for s_, r_ in zip(search_strings, rs) if r_ is not None]
+        if not pairs_:
+            continue
+        gcases.append("(%s, %s)" % (cq_alts(patt), coq_list("(%s, %s)" % (coq_str(s_), coq_bool(r_))
+                                                              for s_, r_ in pairs_)))
         for s, r in zip(search_strings, rs):
             chk.count(("search", patt, s), nontrivial=r)
-    mism_g, err_g, _ = coq_eval("C07", "k_search", "Lib.Str Lib.Regex Corr.K07", "chk_search", gcases)
+    chk.notes["prep_initfiles_canaddfile_called_with"] = search_res.get("how")
+    if gcases:
+        mism_g, err_g, _ = coq_eval("C07", "k_search", "Lib.Str Lib.Regex Corr.K07", "chk_search", gcases)
+    else:
+        mism_g, err_g = [], None
     mism_h, err_h, _ = coq_eval("C07", "k_shipped", "Lib.Str Lib.Regex Corr.K07", "chk_shipped", [cq_alts(shipped)])
     for a, s in zip(arrangements, cmp_res["sorts"]):
         chk.count(("sort", tuple(a)))
@@ -236,6 +337,27 @@ def run(tier):
         base = ["/big", "/"][k % 2]
         t, names, hidden = gen_tree(rng, sz, base)
         trees.append({"tree": t, "dir": base, "names": names, "hidden": hidden, "perms": None, "nrand": 200})
+    for base in ("/all", "/"):
+        t, names, hidden = full_tree(base)
+        trees.append({"tree": t, "dir": base, "names": names, "hidden": hidden, "perms": None, "nrand": 3})
+    # several blocks for the same path, one of them hiding it
+    for k in range(16 if thorough else 8):
+        base = ["/d", "/", "/deep/er"][k % 3]
+        t, names, hidden = hide_sequence_tree(rng, base)
+        trees.append({"tree": t, "dir": base, "names": names, "hidden": hidden, "perms": "all" if len(names) <= 5 else None,
+                      "nrand": 40})
+    # directories whose own path is matched by an unanchored alternative; other configured patterns
+    for patt in [None] + OTHER_PATTERNS:
+        live = patt or shipped
+        dirs = matching_dirs(live)
+        for d in (dirs if thorough else dirs[:6]):
+            t, names, hidden = plain_tree(rng, d)
+            trees.append({"tree": t, "dir": d, "names": names, "hidden": hidden, "perms": "all", "patt": patt})
+        if patt:
+            for k in range(3 if thorough else 2):
+                base = ["/d", "/"][k % 2]
+                t, names, hidden = gen_tree(rng, 5, base, patt)
+                trees.append({"tree": t, "dir": base, "names": names, "hidden": hidden, "perms": "all", "patt": patt})
     jobs = []
     for tr in trees:
         # the number of names actually in the directory (the tree may add .cap etc.)
@@ -250,8 +372,11 @@ def run(tier):
             perms.append(list(range(n)))
             perms.append(list(reversed(range(n))))
         fetch = [n for n in tr["names"] if n not in DIRLIKE]
+        cfg = CONFIG
+        if tr.get("patt"):
+            cfg = {"handlers.dir.DirHandler": {"cachetime": "0", "ignorepatt": tr["patt"]}}
         jobs.append({"op": "c07_listing", "tree": tr["tree"], "dir": tr["dir"], "kinds": ["dir", "umn"],
-                     "perms": perms, "config": CONFIG, "fetch": fetch})
+                     "perms": perms, "config": cfg, "fetch": fetch})
     lres = impl_run_parallel(jobs, chunks=min(len(jobs), 12))
     umnlib.check_ok(lres)
     lcases = []
